@@ -2,8 +2,12 @@ package main
 
 import (
 	"go/token"
+	"go/types"
+	"sort"
 
 	"golang.org/x/tools/go/ssa"
+
+	"safecheck/relang"
 )
 
 // enumSanitizer recognises the membership shape: input := Stringify(args...);
@@ -57,6 +61,10 @@ func enumValueSets(p *Program, pl *Policy) map[string][]string {
 		f := pl.SanitizerFunc(v)
 		g, ok := enumSanitizerSet(f)
 		if !ok {
+			// not the map-lookup spelling: decide by language
+			if words, ok := enumWordsOf(p, f); ok {
+				out[inf.Name] = words
+			}
 			continue
 		}
 		lit, err := p.VarLit("template", g.Name())
@@ -71,3 +79,106 @@ func enumValueSets(p *Program, pl *Policy) map[string][]string {
 	}
 	return out
 }
+
+// enumWordsOf decides, by language, whether a sanitizer func(args ...interface{}) (string, error)
+// returns its stringified input unchanged exactly when the input is one of finitely many words
+// (whatever the spelling: a map lookup, ==, a switch). It returns the words.
+func enumWordsOf(p *Program, f *ssa.Function) ([]string, bool) {
+	if f == nil || f.Blocks == nil || len(f.Params) != 1 || f.Signature.Results().Len() != 2 {
+		return nil, false
+	}
+	regs, _ := p.AllRegexes()
+	s := NewSummarizer(p, regs)
+	env := termEnv{f.Params[0]: Term{Param: 0}}
+	n := 0
+	for _, ret := range Returns(f) {
+		if k, ok := ret.Results[1].(*ssa.Const); ok && k.Value == nil {
+			t, ok := s.termOf(ret.Results[0], env)
+			if !ok || t != (Term{Param: 0}) {
+				return nil, false // a success return that is not the input itself
+			}
+			n++
+		}
+	}
+	if n == 0 {
+		return nil, false
+	}
+	cond := s.NilResultForm(f, 1, env)
+	if u, _ := cond.HasUnknown(); u || len(s.Inexact) > 0 {
+		return nil, false
+	}
+	L := NewLang()
+	if err := registerSumm(L, s, cond); err != nil {
+		return nil, false
+	}
+	L.Build()
+	d, amb, err := L.Eval(cond)
+	if err != nil || len(amb) > 0 || L.Overapprox {
+		return nil, false
+	}
+	return finiteLanguage(d.Minimize(), 64)
+}
+
+// finiteLanguage enumerates the accepted strings of d if there are at most max of them.
+func finiteLanguage(d *relang.DFA, max int) ([]string, bool) {
+	n := len(d.Trans)
+	// co-reachable states
+	co := make([]bool, n)
+	changed := true
+	for q := 0; q < n; q++ {
+		co[q] = d.Acc[q]
+	}
+	for changed {
+		changed = false
+		for q := 0; q < n; q++ {
+			if co[q] {
+				continue
+			}
+			for _, t := range d.Trans[q] {
+				if co[t] {
+					co[q] = true
+					changed = true
+					break
+				}
+			}
+		}
+	}
+	var out []string
+	onPath := make([]bool, n)
+	infinite := false
+	var walk func(q int, word []int)
+	walk = func(q int, word []int) {
+		if infinite || len(out) > max {
+			return
+		}
+		if !co[q] {
+			return
+		}
+		if onPath[q] {
+			infinite = true
+			return
+		}
+		if d.Acc[q] {
+			out = append(out, string(d.A.Bytes(word)))
+		}
+		onPath[q] = true
+		for c, t := range d.Trans[q] {
+			if d.A.Impossible[c] {
+				continue
+			}
+			if co[t] {
+				// the class must be a single symbol for the word to be exact
+				walk(int(t), append(append([]int{}, word...), c))
+			}
+		}
+		onPath[q] = false
+	}
+	walk(d.Start, nil)
+	if infinite || len(out) > max {
+		return nil, false
+	}
+	sort.Strings(out)
+	return out, true
+}
+
+var _ types.Type
